@@ -32,6 +32,7 @@ import Driver.TarFS
 import Driver.ProtoSession
 import Driver.MountHandleAccept
 import Driver.RemoteStores
+import Driver.StoreOpts
 
 namespace Driver
 open Desync
@@ -663,6 +664,7 @@ def runLine (l : String) : String :=
     | "bst" => cmdBst a
     | "s3.store" | "s3.get" | "s3.has" | "sftp.has" | "sftp.store" | "sftp.get" => (Remote.run cmd a).getD "bad-op"
     | "tarfs.mode" | "tarfs.read" | "tarfs.tar" | "tarfs.write" => (TarFSCmd.run cmd a).getD "bad-op"
+    | "so.srv" | "so.glob" | "so.locmatch" | "so.store" | "so.index" => (StoreOptsCmd.run cmd a).getD "bad-op"
     | _ => "bad-op"
 
 end Driver
